@@ -1,25 +1,34 @@
 #!/bin/bash
-# runs the quick check of every confirmed seed's property against the seeded change (isolated worktrees) and records the outcome
+# runs the quick check of every confirmed seed's property against the seeded change (isolated worktrees) and records the
+# outcome.  usage: sweep_seeds.sh [glob of seed names, default *]   (results of other seeds are kept)
+PAT=${1:-*}
 OUT=/verif/seeded/RESULTS.txt
+touch $OUT
 : > $OUT.tmp
-for d in /verif/seeded/*/; do
+for d in /verif/seeded/$PAT/; do
   s=$(basename $d)
   [ -f $d/patch.diff ] || continue
   /verif/tools/test_seed.sh $s 2>&1 | grep "check=" >> $OUT.tmp
 done
-mv $OUT.tmp $OUT
 python3 - <<'PY'
-import json,re,glob
+import re,json,os
 res={}
-for l in open('/verif/seeded/RESULTS.txt'):
+for f in ['/verif/seeded/RESULTS.txt','/verif/seeded/RESULTS.txt.tmp']:
+    if os.path.exists(f):
+        for l in open(f):
+            m=re.match(r'(\S+) check=(\S+) exit=(\d+) violations=(\d+) first_assert=(\S*)',l)
+            if m: res[m.group(1)]=l.rstrip('\n')
+open('/verif/seeded/RESULTS.txt','w').write('\n'.join(res[k] for k in sorted(res))+'\n')
+os.remove('/verif/seeded/RESULTS.txt.tmp')
+for s,l in res.items():
     m=re.match(r'(\S+) check=(\S+) exit=(\d+) violations=(\d+) first_assert=(\S*)',l)
-    if m: res[m.group(1)]=(m.group(2),int(m.group(3)),int(m.group(4)),m.group(5))
-for f in glob.glob('/verif/seeded/*/meta.json'):
-    s=f.split('/')[-2]
-    m=json.load(open(f))
-    if s in res:
-        chk,ex,nv,fa=res[s]
-        m['detected_by']=[{"check":chk,"exit":ex,"violations":nv,"first_failing_assertion":fa}] if ex==1 else []
-        m['ran']="tools/test_seed.sh %s : quick check of %s against a scratch worktree of /repo HEAD with the patch applied (VERIF_REPO), exit=%d"%(s,chk,ex)
-    json.dump(m,open(f,'w'),indent=1)
+    mp=f'/verif/seeded/{s}/meta.json'
+    if not os.path.exists(mp): continue
+    j=json.load(open(mp))
+    if m.group(3)=='1':
+        j['detected_by']=[{'check':m.group(2),'first_failing_assertion':m.group(5),'violations_replayed':int(m.group(4))}]
+    else:
+        j['detected_by']=[]
+    j['ran']=f'tools/test_seed.sh {s}  ->  exit={m.group(3)}'
+    json.dump(j,open(mp,'w'),indent=1)
 PY
